@@ -21,7 +21,7 @@ CHECK_DEADLOCK FALSE
 WATER = np.array([[0, 0, 0], [1, 0, 0], [0, 1, 0]])
 
 
-def _build(case, seed, top=None):
+def _build(case, seed, top=None, defer=False):
     import mdtraj as md
     rs = np.random.RandomState(seed)
     cell = np.array(case["cell"], dtype=float)
@@ -36,11 +36,15 @@ def _build(case, seed, top=None):
             off = len(pos)
             res = top.add_residue("LIG", ch)
             atoms = [top.add_atom("C%d" % i, md.element.carbon, res) for i in range(4)]
-            for b in case["bonds"]:
+            deferred = None
+            for bi, b in enumerate(case["bonds"]):
                 i, j = b[0] - 1, b[1] - 1
                 if (seed + i + j) % 2 or rev:
                     i, j = j, i
-                top.add_bond(atoms[i], atoms[j])
+                if defer and bi == len(case["bonds"]) - 1:
+                    deferred = (atoms[i], atoms[j])           # added in place later, after a first round of re-imaging
+                else:
+                    top.add_bond(atoms[i], atoms[j])
             pos += [np.array(p, dtype=float) for p in case["pos0"]]
         if slot < 2:
             # two scrambled waters so that image_molecules has other molecules to place
@@ -55,7 +59,7 @@ def _build(case, seed, top=None):
     xyz = np.stack([pos, pos + (rs.randint(-1, 2, size=(len(pos), 3)) @ cell)]) * G
     t = md.Trajectory(xyz.astype(np.float32), top, time=np.array([3.0, 4.5]))
     t.unitcell_vectors = np.stack([cell * G] * nfr).astype(np.float32)
-    return t, cell, off, where
+    return t, cell, off, where, deferred
 
 
 def _lattice_coefs(delta_units, cell):
@@ -65,7 +69,16 @@ def _lattice_coefs(delta_units, cell):
 def _replay(task):
     import mdtraj as md
     case, seed = task[0], task[1]
-    t, cell, off, where = _build(case, seed, task[2] if len(task) > 2 else None)
+    t, cell, off, where, deferred = _build(case, seed, task[2] if len(task) > 2 else None, defer=(seed % 4 == 1))
+    if deferred is not None:
+        # object history: the trajectory is re-imaged once while the ligand is still two fragments, then the missing bond is added to
+        # its topology IN PLACE; everything below must see the molecule as it is now
+        try:
+            t.make_molecules_whole(inplace=False)
+            t.image_molecules(inplace=False, make_whole=True, anchor_molecules=[set(t.topology.residue(where).atoms)])
+        except Exception:  # noqa
+            pass
+        t.topology.add_bond(*deferred)
     bonds = np.array([[b[0].index, b[1].index] for b in t.topology.bonds])
     x0 = t.xyz.copy(); L0 = t.unitcell_lengths.copy(); A0 = t.unitcell_angles.copy(); T0 = t.time.copy()
     allpairs = np.array([(i, j) for i in range(t.n_atoms) for j in range(i + 1, t.n_atoms)])
